@@ -103,6 +103,12 @@ def run(chk):
     from . import _glue, _oracle
 
     _glue.glue_part(chk, ["HyperLogLog"], {"add", "add_ngram", "update", "update_ngram"}, lambda: _oracle.hll_history(chk, 60))
+    from . import C08, C15, C17
+
+    C08.merge_tree_part(chk)  # the merge tree the library builds merges every input exactly once
+
+    C15.merge_glue(chk, ["HyperLogLog"])  # merge() reaches the merge kernel on every accepting path
+    C17.query_fresh(chk, chk.default_found)  # the estimate is a function of the current registers
     hn = 15 if chk.tier == "quick" else 400
     hb = _oracle.hll_history(chk, hn)
     if hb:
